@@ -89,6 +89,46 @@ Definition wf_sorted (l : list constr) : bool :=
   | _ => no_star l && increasing l && eq_rule l && alternate (bounds l)
   end.
 
+(* ---- C09: no vacuous constraints ------------------------------------------ *)
+(* "every '!=' lies inside an included interval (or the range consists only of '!=')
+   and every '=' lies outside all intervals" *)
+Definition nonvacuous (cs : list constr) : bool :=
+  forallb (fun c => match c with
+                    | C NE x => forallb (c_ne V) cs || den_bounds (bounds cs) x
+                    | C EQ x => negb (den_bounds (bounds cs) x)
+                    | _ => true
+                    end) cs.
+
+(* ---- C08: membership in a possibly redundant range ------------------------ *)
+(* Each bound cuts the version line just below or just above its version:
+   ">=x" and "<x" cut just below x, ">x" and "<=x" just above x.
+   cut_below c v: the cut of bound c lies below the probe v. *)
+Definition cut_below (v : V) (c : constr) : bool :=
+  match c with
+  | C o x => match cmp x v with
+             | Lt => true
+             | Eq => match o with GE | LT => true | _ => false end
+             | Gt => false
+             end
+  | Star => false
+  end.
+
+(* "the nearest bound below it points upward" / "the nearest bound above it points downward" *)
+Definition nearest_below_up (bs : list constr) (v : V) : bool :=
+  match last_opt (filter (cut_below v) bs) with Some b => c_lower V b | None => false end.
+Definition nearest_above_down (bs : list constr) (v : V) : bool :=
+  match filter (fun c => negb (cut_below v c)) bs with b :: _ => c_upper V b | [] => false end.
+
+(* C08: "a version is in a (possibly redundant) range when no '!=' excludes it and it
+   equals an '=' version or the nearest bound below it points upward or the nearest bound
+   above it points downward"; a range made only of '!=' keeps C04's reading (everything else). *)
+Definition mem (cs : list constr) (v : V) : bool :=
+  negb (existsb (fun c => c_ne V c && at_ver v c) cs)
+  && (existsb (fun c => c_eq V c && at_ver v c) cs
+      || nearest_below_up (bounds cs) v
+      || nearest_above_down (bounds cs) v
+      || (negb (is_nil cs) && forallb (c_ne V) cs)).
+
 (* wf: a list in any order is well-formed when its version-ordered rearrangement is
    (C07: "every version occurs once, '*' occurs only alone, and, read in version order, ...") *)
 Definition wf (cs : list constr) : Prop :=
